@@ -2,7 +2,7 @@
 """Regenerate the 'seeded changes' table of DESIGN.md (section 12.5) from /verif/seeded/*/meta.json."""
 import glob, json, os, re
 ROOT = os.path.dirname(os.path.dirname(os.path.abspath(__file__)))
-rows = []; caught_own = missed_own = 0
+rows = []; caught_own = missed_own = caught_after = 0; special = []
 for d in sorted(glob.glob(os.path.join(ROOT, "seeded", "*"))):
     mp = os.path.join(d, "meta.json")
     if not os.path.exists(mp): continue
@@ -22,8 +22,14 @@ for d in sorted(glob.glob(os.path.join(ROOT, "seeded", "*"))):
         res.append(f"{cid} {mark}" + (f" (`{rule}`)" if rule and v["verdict"] == "caught" else "") + ("" if tier == "quick" else f" [{tier}]"))
         if cid == pid:
             own = v["verdict"] if own != "caught" else own
-    if own == "caught": caught_own += 1
-    elif own is not None: missed_own += 1
+            if m.get("first_measurement", {}).get(k) == "missed" and v["verdict"] == "caught":
+                res[-1] = res[-1].replace("**caught**", "missed at first measurement, **caught** after the strengthening", 1)
+    if own == "caught" and m.get("first_measurement"): caught_after += 1
+    elif own == "caught": caught_own += 1
+    elif own is not None:
+        missed_own += 1; special.append(name)
+    if m.get("status_at_head"):
+        res.append("*" + m["status_at_head"].split(".")[0] + "; see meta.json*")
     files = ", ".join(sorted(set(os.path.basename(f) for f in m.get("files", []))))
     rows.append(f"| `{name}` | {pid} | {files} | {desc.replace('|','/')} | {'; '.join(res)} | {m.get('strengthening','')} |")
 out = ["Every change below was produced by an independent sub-agent that was given only the text of one property and a scratch",
@@ -31,7 +37,11 @@ out = ["Every change below was produced by an independent sub-agent that was giv
        "`src/`, applies to the pristine HEAD, the pinned 63 tests pass with it, and its demonstration fails with it and passes without it.",
        "Checks were then run against it with `lib/seeded.py` (evidence redirected, `/repo` restored afterwards). Patch, demonstration,",
        "the agent's note and `meta.json` (what it needs to manifest, what I ran, verdicts) are kept under `/verif/seeded/<id>/`.", "",
-       f"Summary: {len(rows)} confirmed changes; the check of the targeted property caught {caught_own}, missed {missed_own} (quick tier unless noted).", "",
+       f"Summary (quick tier): {len(rows)} confirmed changes. The check of the targeted property caught {caught_own} at the first measurement, "
+       f"{caught_after} more only after a strengthening made because of the miss (marked in the table), and does not catch {missed_own} "
+       f"({', '.join('`'+x+'`' for x in special)}: one is no longer a violation at HEAD because a later repair removed the second site it needed, "
+       "one changes behaviour the statement does not define - both explained in their rows). Several strengthenings were made from the agents' "
+       "descriptions *before* measuring the previous version; those rows say so and are counted as caught, not as 'caught after a miss'.", "",
        "| change | targets | files | what it is | verdicts | strengthening made because of it |", "|---|---|---|---|---|---|"] + rows
 txt = "\n".join(out)
 p = os.path.join(ROOT, "DESIGN.md"); s = open(p).read()
@@ -39,4 +49,4 @@ beg = s.index("### 12.5 Seeded changes: which check catches which") + len("### 1
 end = s.index("### 12.6 ")
 s = s[:beg] + "\n\n" + txt + "\n\n" + s[end:]
 open(p, "w").write(s)
-print(f"{len(rows)} rows; own-property caught {caught_own}, missed {missed_own}")
+print(f"{len(rows)} rows; caught at once {caught_own}, after strengthening {caught_after}, not caught {missed_own} {special}")
